@@ -55,8 +55,9 @@ def main():
         finally:
             subprocess.run(["git", "-C", "/repo", "worktree", "remove", "--force", scratch], stdout=subprocess.DEVNULL, stderr=subprocess.DEVNULL)
             shutil.rmtree(scratch, ignore_errors=True)
-            for d in glob.glob(os.path.join(VERIF, "build", "*-*")):
-                shutil.rmtree(d, ignore_errors=True)
+            import hashlib
+            for d in glob.glob(os.path.join(VERIF, "build", "*-" + hashlib.sha256(scratch.encode()).hexdigest()[:8])):
+                shutil.rmtree(d, ignore_errors=True)   # only this run's own scratch build output (other runs may be in flight)
     for name, props, verdict, extra in results:
         print("%-40s %s %s" % (name, verdict, extra))
     return 0 if all("MISSED" not in r[2] and "PATCH" not in r[2] for r in results) else 1
